@@ -272,6 +272,15 @@ func (b *Batch) flushStagedAndUpdateFile() error {
 
 // 刷新缓存
 func (b *Batch) flushStaged() error {
+	// 当前活跃文件剩余空间不足以容纳暂存数据及完成标识记录时, 先切换到新的活跃文件
+	// 否则数据文件最多可能达到容量上限的两倍
+	if b.db.activeFile.Size() > 0 &&
+		b.db.activeFile.Size()+b.cachedDataSize+maxFinRecord > b.db.options.DataFileSize {
+		if err := b.db.sync(); err != nil {
+			return err
+		}
+	}
+
 	// 顺序遍历暂存数据依次追加磁盘
 	for _, record := range b.staged {
 		record.BatchID = uint64(b.batchID)
